@@ -155,7 +155,9 @@ macro_rules! crdt {
     }};
 }
 
-fn one(out: &mut Out, name: &str, seed: u64, ops: usize, tag: &str, rt: &tokio::runtime::Runtime) {
+fn one(out: &mut Out, name: &str, seed: u64, ops: usize, tag: &str, rt: &tokio::runtime::Runtime, slow_ms: u64) {
+    // real time passing between blocks of operations must not matter (slow machine, loaded machine)
+    let pause = || if slow_ms > 0 { std::thread::sleep(std::time::Duration::from_millis(slow_ms)) };
     let mut rec = Rec { out, h: name.to_string(), seed, tag: tag.to_string(), i: 0 };
     match name {
         "executor/calm" | "executor/chaos" | "executor/string_heavy" => {
@@ -217,6 +219,7 @@ fn one(out: &mut Out, name: &str, seed: u64, ops: usize, tag: &str, rt: &tokio::
                 for _ in 0..10 {
                     h.run(ops / 10 + 1).await;
                     rec.step(dbg(h.result()));
+                    pause();
                 }
                 h.check_invariants().await;
                 let r = h.result();
@@ -244,6 +247,7 @@ fn one(out: &mut Out, name: &str, seed: u64, ops: usize, tag: &str, rt: &tokio::
                 for _ in 0..10 {
                     h.run(ops / 10 + 1).await;
                     rec.step(dbg(h.result()));
+                    pause();
                 }
                 h.check_invariants().await;
                 let r = h.result();
@@ -300,6 +304,7 @@ pub fn main(args: &[String]) -> i32 {
     let ops = a.usize("ops", 200);
     let tag = a.str("tag", "A");
     let reps = a.usize("reps", 1);
+    let slow_ms = a.u64("slow", 0);
     let rt = tokio::runtime::Builder::new_current_thread().enable_all().start_paused(true).build().unwrap();
     for rep in 0..reps {
         let t = if reps == 1 { tag.to_string() } else { format!("{tag}{}", rep + 1) };
@@ -308,7 +313,7 @@ pub fn main(args: &[String]) -> i32 {
                 let mut failed = None;
                 {
                     let o = &mut out;
-                    if let Err(p) = catch(|| one(o, name, *seed, ops, &t, &rt)) {
+                    if let Err(p) = catch(|| one(o, name, *seed, ops, &t, &rt, slow_ms)) {
                         failed = Some(p);
                     }
                 }
